@@ -4,5 +4,5 @@ PATCH=$1; shift
 D=/var/tmp/srepo.$$
 rm -rf $D; mkdir -p $D; rsync -a --exclude target --exclude .git /repo/ $D/
 (cd $D && patch -p1 -s < $PATCH) || { echo "PATCH DOES NOT APPLY"; rm -rf $D; exit 3; }
-for c in "$@"; do (cd /verif && ./check $c --repo $D --no-evidence 2>&1 | grep -E "^(OK|FAIL|UNDECIDED|VIOLATION|KNOWN|  obligation|  clause)" | cut -c1-220); done
+for c in "$@"; do (cd ${VERIF_ROOT:-/verif} && ./check $c --repo $D --no-evidence 2>&1 | grep -E "^(OK|FAIL|UNDECIDED|VIOLATION|KNOWN|  obligation|  clause)" | cut -c1-220); done
 rm -rf $D
